@@ -128,6 +128,10 @@ def templates(tier, seed):
         for delta in (-1, 0, 1):
             for ch in ("x", "é", "→", "𝄞"):
                 tds.append(dict(fam="var-limit", lim=lim, delta=delta, ch=ch))
+    for form in ("source-longer-than-value", "source-longer-vars", "source-longer-sum"):
+        tds.append(dict(fam="var-limit-source", form=form))
+    for form in ("lowered-inside-nesting", "lowered-inside-loop", "lowered-to-current", "raised-inside-nesting"):
+        tds.append(dict(fam="depth-limit-dynamic", form=form))
     for form in ("same-value-after-lower-limit", "copy-of-group-attr", "copy-of-for-item", "copy-of-reuse-attr", "same-value-within-limit"):
         tds.append(dict(fam="var-limit-copy", form=form))
     for form in ("config-in-body-lowers", "config-in-body-if", "config-in-body-raises", "config-in-nested"):
@@ -293,6 +297,26 @@ def build(td, wrong=False):
             good = (r.status == "ok") if want_ok else (r.status == "err" and "exceeded" in r.docs[0]["msg"])
             return [Obl(f"{attr}-{lim}-needed-{need}", PASS if good else FAIL, ground=True, note=r.status + " " + r.docs[0]["msg"][:120])]
         return Template(f"{fam}/{td['gseed']}/{td['delta']}", doc, [(1, -8, 8, 0)], check, family=fam, role=f"C17/{fam}", cap=2)
+    if fam == "var-limit-source":
+        # the limit is on the VALUE a variable gets, not on the text it is computed from
+        doc = {"source-longer-than-value": '<svg><config var-limit="10"/><var total="{{1 + 2 + 3 + 4}}"/><rect xy="[[0]] $total" wh="1"/></svg>',
+               "source-longer-vars": '<svg><config var-limit="4"/><var first_coordinate="1" second_coordinate="2"/><var p="$first_coordinate$second_coordinate"/><rect xy="[[0]] $p" wh="1"/></svg>',
+               "source-longer-sum": '<svg><config var-limit="6"/><var t="{{' + " + ".join(["1"] * 40) + '}}"/><rect xy="[[0]] $t" wh="1"/></svg>'}[td["form"]]
+
+        def check(r):
+            return [Obl("value-within-limit-is-accepted", PASS if r.status == "ok" else FAIL, ground=True, note=r.status + " " + r.docs[0]["msg"][:100])]
+        return Template(f"var-limit-source/{td['form']}", doc, [(1, -8, 8, 0)], check, family="var-limit", role="C17/var-limit", cap=2)
+    if fam == "depth-limit-dynamic":
+        # a limit set below the nesting already reached: the next deeper element is refused with the limit error (never a crash)
+        doc, want = {"lowered-inside-nesting": ('<svg><g><g><g><config depth-limit="2"/><g><rect xy="[[0]] 0" wh="1"/></g></g></g></g></svg>', "err"),
+                     "lowered-inside-loop": ('<svg><loop count="2"><g><config depth-limit="1"/><rect xy="[[0]] 0" wh="1"/></g></loop></svg>', "err"),
+                     "lowered-to-current": ('<svg><g><config depth-limit="3"/><rect xy="[[0]] 0" wh="1"/></g></svg>', "ok"),
+                     "raised-inside-nesting": ('<svg><config depth-limit="4"/><g><g><config depth-limit="9"/><g><g><g><rect xy="[[0]] 0" wh="1"/></g></g></g></g></g></svg>', "ok")}[td["form"]]
+
+        def check(r):
+            good = r.status == want and (want == "ok" or "exceeded" in r.docs[0]["msg"])
+            return [Obl(f"depth-limit-as-configured-now/{td['form']}", PASS if good else FAIL, ground=True, note=r.status + " " + r.docs[0]["msg"][:100])]
+        return Template(f"depth-limit-dynamic/{td['form']}", doc, [(1, -8, 8, 0)], check, family="depth-nesting", role="C17/depth-dynamic", cap=2)
     if fam == "var-limit-copy":
         # the limit applies to every value a <var> stores, wherever the value comes from and whether or not it changes anything
         form = td["form"]
